@@ -154,16 +154,38 @@ func runDRBG(x, e *big.Int, reads int) string {
 	if h == nil {
 		return ""
 	}
-	rd := h(lib.MkSC(x), lib.MkSC(e))
 	want := ref.RFC6979Candidates(x, ref.B32(e), reads)
-	for i := 0; i < reads; i++ {
-		var b [32]byte
-		n, err := rd.Read(b[:])
-		if n != 32 || err != nil {
-			return fmt.Sprintf("read %d: n=%d err=%v", i+1, n, err)
+	// three consumer behaviours: a fresh buffer per read (all retained and compared at the end), one buffer
+	// reused untouched, one buffer wiped by the consumer between reads (as a sampler scrubbing rejects would)
+	for _, style := range []string{"fresh buffers, retained", "one buffer reused", "one buffer wiped between reads"} {
+		rd := h(lib.MkSC(x), lib.MkSC(e))
+		var kept [][]byte
+		shared := make([]byte, 32)
+		for i := 0; i < reads; i++ {
+			b := shared
+			if style == "fresh buffers, retained" {
+				b = make([]byte, 32)
+			}
+			n, err := rd.Read(b)
+			if n != 32 || err != nil {
+				return fmt.Sprintf("read %d: n=%d err=%v", i+1, n, err)
+			}
+			if !bytes.Equal(b, want[i]) {
+				return fmt.Sprintf("candidate %d = %x, RFC 6979 gives %x (consumer: %s)", i+1, b, want[i], style)
+			}
+			kept = append(kept, b)
+			if style == "one buffer wiped between reads" {
+				for j := range b {
+					b[j] = 0xa5
+				}
+			}
 		}
-		if !bytes.Equal(b[:], want[i]) {
-			return fmt.Sprintf("candidate %d = %x, RFC 6979 gives %x", i+1, b[:], want[i])
+		if style == "fresh buffers, retained" {
+			for i := range kept {
+				if !bytes.Equal(kept[i], want[i]) {
+					return fmt.Sprintf("candidate %d handed out earlier was overwritten by a later read (generator output aliases its internal state)", i+1)
+				}
+			}
 		}
 	}
 	return ""
@@ -243,19 +265,21 @@ func runHedged(d *big.Int, digest []byte, src string) string {
 	}
 	for j := 0; j <= 32; j++ {
 		for _, with := range []bool{false, true} {
-			sc := mc.Script{Src: src, Mode: "full", FailAfter: j, FailWith: with}
-			r2, _, _, e2 := signWith(d, digest, sc)
-			if j < 32 {
-				if e2 == nil || r2 != nil {
-					return fmt.Sprintf("reader failed after %d bytes (with data=%v) but a signature was produced", j, with)
+			for _, ek := range []string{"", "eof", "unexpected-eof"} { // the identity of the error must not matter
+				sc := mc.Script{Src: src, Mode: "full", FailAfter: j, FailWith: with, FailErr: ek}
+				r2, _, _, e2 := signWith(d, digest, sc)
+				if j < 32 {
+					if e2 == nil || r2 != nil {
+						return fmt.Sprintf("reader failed after %d bytes (error kind %q, with data=%v) but a signature was produced", j, ek, with)
+					}
+				} else if e2 != nil || !bytes.Equal(r2, r0) {
+					return fmt.Sprintf("reader delivering exactly 32 bytes then failing (error kind %q, with data=%v): err=%v", ek, with, e2)
 				}
-			} else if e2 != nil || !bytes.Equal(r2, r0) {
-				return fmt.Sprintf("reader delivering exactly 32 bytes then failing (with data=%v): err=%v", with, e2)
-			}
-			sc.Mode = "1"
-			r3, _, _, e3 := signWith(d, digest, sc)
-			if j < 32 && (e3 == nil || r3 != nil) {
-				return fmt.Sprintf("1-byte reader failing after %d bytes still produced a signature", j)
+				sc.Mode = "1"
+				r3, _, _, e3 := signWith(d, digest, sc)
+				if j < 32 && (e3 == nil || r3 != nil) {
+					return fmt.Sprintf("1-byte reader failing after %d bytes (error kind %q) still produced a signature", j, ek)
+				}
 			}
 		}
 	}
@@ -272,7 +296,7 @@ func register() {
 		return runSampler(c)
 	})
 	mc.Register("sampler-reader", func(d mc.D) string {
-		return runSamplerReader(mc.Script{Mode: d.S("mode"), FailAfter: d.I("fail_after"), FailWith: d.Bool("fail_with")})
+		return runSamplerReader(mc.Script{Mode: d.S("mode"), FailAfter: d.I("fail_after"), FailWith: d.Bool("fail_with"), FailErr: d.S("fail_err")})
 	})
 	mc.Register("drbg", func(d mc.D) string { return runDRBG(d.Big("x"), d.Big("e"), d.I("reads")) })
 	mc.Register("rfc6979", func(d mc.D) string { return runRFC6979Sign(d.Big("d"), d.B("digest")) })
@@ -361,11 +385,13 @@ func main() {
 		}
 		for j := 0; j <= 97; j++ {
 			for _, m := range []string{"full", "1", "chunks:31"} {
-				scs = append(scs, mc.Script{Mode: m, FailAfter: j}, mc.Script{Mode: m, FailAfter: j, FailWith: true})
+				for _, ek := range []string{"", "eof"} {
+					scs = append(scs, mc.Script{Mode: m, FailAfter: j, FailErr: ek}, mc.Script{Mode: m, FailAfter: j, FailWith: true, FailErr: ek})
+				}
 			}
 		}
 		for _, sc := range scs {
-			R.Run("sampler/reader/"+sc.Mode, "sampler-reader", mc.D{"mode": sc.Mode, "fail_after": sc.FailAfter, "fail_with": sc.FailWith})
+			R.Run("sampler/reader/"+sc.Mode, "sampler-reader", mc.D{"mode": sc.Mode, "fail_after": sc.FailAfter, "fail_with": sc.FailWith, "fail_err": sc.FailErr})
 		}
 		R.Class("sampler/reader scripts", int64(len(scs)))
 	} else {
@@ -443,7 +469,7 @@ func main() {
 	rvals := make([][]byte, len(trs))
 	mc.Par(len(trs), func(i int) {
 		t := trs[i]
-		R.T(int64(2 + len(mc.DeliveryModes()) + 33*4))
+		R.T(int64(2 + len(mc.DeliveryModes()) + 33*4*3))
 		if m := mc.Safe(func() string { return runHedged(t.d, t.digest, t.ent) }); m != "" {
 			R.Mismatch("hedged/"+t.ent, "hedged", m, mc.D{"d": mc.HexBig(t.d), "digest": mc.Hex(t.digest), "src": t.ent})
 		}
